@@ -51,7 +51,7 @@ func init() {
 		ID: "C02",
 		Rule: "forest = skeleton document with one reference of kind K planted at position P, pointing through graph shape S into files placed by layout L, the root->file edge spelled by spelling Y, loaded through entry point E; " +
 			"the full product K(10) x positions(K) x shapes(K) x layouts(3) x spellings(4) x entries(4-5) is enumerated; the loaded document, expanded through its references to depth 3, must equal the raw JSON expanded by the reference resolver; " +
-			"dangling / wrong-kind / pure-loop shapes must fail to load. non-trivial = the shape has at least one reference edge beyond the planted one or crosses a file boundary or must fail",
+			"dangling / wrong-kind / pure-loop shapes must fail to load. Loader history {fresh, after a failed load of a broken edition of the document from a sibling location, after a load of the same document}: the verdict and the resolved document do not depend on it. non-trivial = the shape has at least one reference edge beyond the planted one or crosses a file boundary or must fail",
 		Assumptions: []string{
 			"reference resolver mc/ref/refs.go: RFC 3986 path resolution against the containing file + JSON pointer over raw JSON; chains followed to the first non-reference object",
 			"files are served by an in-memory ReadFromURIFunc with filesystem path cleaning; external references are allowed",
@@ -77,19 +77,28 @@ func init() {
 		},
 		Body: func(r *core.Run, x *explore.X) {
 			f := GenForest(x, r.Tier == "thorough")
+			// the Loader's history: fresh, after a failed load of a broken edition of the document, after a load of the same document
+			// (quick: at the placements that vary the entry point; thorough: everywhere)
+			history := 0
+			if r.Tier == "thorough" || f.Entry != "DataWithPath" || f.Layout != "flat" {
+				history = x.Choose(3)
+			}
 			order := x.Deviate(2)
 			if !r.Own(x) {
 				return
 			}
 			f = f.Build()
 			sig := f.Signature()
+			if history != 0 {
+				sig += fmt.Sprintf(" loader-history=%d", history)
+			}
 			r.Case(fmt.Sprintf("%s|%d", sig, order), f.External || f.Expect != "ok" || f.Shape != "internal")
 			if r.WantSample(x) {
 				r.Sample(x, f.Describe())
 			}
 			var res LoadResult
 			r.Exec(order)
-			if !r.Guard(x, "Load", map[string]any{"forest": f.Describe()}, func() { res = LoadForest(f, true, nil) }) {
+			if !r.Guard(x, "Load", map[string]any{"forest": f.Describe()}, func() { res = LoadForestAfter(f, true, nil, history) }) {
 				r.Outcome("panic")
 				return
 			}
